@@ -203,3 +203,11 @@ package actionlint
 //@ func (*parser).parseEnvironment
 //@   loop "range p.parseSectionMapping(\"environment\", n, false, true)":
 //@     invariant [C13] (nameFound ==> ret.Name != nil) && len(p.errors) >= old(len(p.errors))
+
+// C13: a credentials section is accepted only with both members; with one missing the pair error is
+// reported (and the section dropped)
+//@ func (*parser).parseContainer
+//@   ensures [C13] result.Credentials != nil ==> result.Credentials.Username != nil && result.Credentials.Password != nil
+//@   loop "range p.parseSectionMapping(sec, n, false, true)":
+//@     invariant [C13] ret.Credentials != nil ==> ret.Credentials.Username != nil && ret.Credentials.Password != nil
+//@     body_calls [C13] (*parser).errorAt iff kv.id == "credentials" && (cred.Username == nil || cred.Password == nil)
